@@ -40,6 +40,24 @@ def cs(s):
 # form: none | value (default: an int, or for the other plain types any literal of the type -- a TRUTHY one, so that
 #       a falsy value handed over and lost is told from the default) | noinit (Attr(default=int, init=False)) | factory
 #       | property
+# How a container attribute is SPELLED in the class body is a rendering choice of the harness ("spell" of an attribute,
+# default "typing"); the description handed to the model -- and so the expected signature -- does not depend on it:
+#   typing   typing.List[X] / typing.Dict[str, X] / typing.Set[X]
+#   builtin  list[X] / dict[str, X] / set[X]            (PEP 585: types.GenericAlias, not typing._GenericAlias)
+#   abc      collections.abc.MutableSequence[X] / MutableMapping[str, X] / MutableSet[X]   (types.GenericAlias too)
+#   tabc     typing.MutableSequence[X] / typing.MutableMapping[str, X] / typing.MutableSet[X]
+SPELLINGS = ("typing", "builtin", "abc", "tabc")
+SPELLABLE = ("list", "dict", "set", "list_nested", "dict_nested")
+
+
+def container_forms(spell):
+    import collections.abc as cabc
+    return {"typing": (typing.List, typing.Dict, typing.Set),
+            "builtin": (list, dict, set),
+            "abc": (cabc.MutableSequence, cabc.MutableMapping, cabc.MutableSet),
+            "tabc": (typing.MutableSequence, typing.MutableMapping, typing.MutableSet)}[spell]
+
+
 def build_classes(desc):
     from spec_classes import Attr, spec_class
     from spec_classes.types import KeyedList, KeyedSet
@@ -49,15 +67,16 @@ def build_classes(desc):
         for a in cd["attrs"]:
             ty = a["ty"]
             base, _, ref = ty.partition(":")
-            T = {"int": int, "str": str, "list": typing.List[int], "dict": typing.Dict[str, int],
-                 "set": typing.Set[int], "any": typing.Any, "bool": bool, "float": float,
+            L, D, S = container_forms(a.get("spell", "typing"))
+            T = {"int": int, "str": str, "list": L[int], "dict": D[str, int],
+                 "set": S[int], "any": typing.Any, "bool": bool, "float": float,
                  "opt": typing.Optional[int]}.get(base)
             if base == "nested":
                 T = env[ref]
             elif base == "list_nested":
-                T = typing.List[env[ref]]
+                T = L[env[ref]]
             elif base == "dict_nested":
-                T = typing.Dict[str, env[ref]]
+                T = D[str, env[ref]]
             elif base in ("klist", "kset"):
                 # the declared key type is the type of the element class's key attribute (enforced since /repo 3655f2b)
                 rcd = next(c for c in desc if c["name"] == ref)
@@ -1120,6 +1139,9 @@ def cases_for(desc, only=None):
     by_name = {c["name"]: c for c in desc}
     out = []
     all_attr_names = sorted({a["name"] for c in desc for a in c["attrs"]})
+    focus = bool(desc and desc[0].get("focus")) and not only
+    respelled = {c["name"]: {a["name"] for a in c["attrs"] if a.get("spell", "typing") != "typing"} for c in desc}
+    abstract = {c["name"]: {a["name"] for a in c["attrs"] if a.get("spell") in ("abc", "tabc")} for c in desc}
     for cd in desc:
         cls = env[cd["name"]]
         inst = make_instance(cls, cd)
@@ -1131,15 +1153,26 @@ def cases_for(desc, only=None):
                 mname = pat
             if only and (cd["name"], mname) != tuple(only):
                 continue
+            if focus:
+                # a re-spelled copy of a fixed hierarchy: only the methods of the re-spelled container attributes
+                an = pat[1] if isinstance(pat, tuple) else (pat.split("_", 1)[1] if "_" in pat.strip("_") else None)
+                if an not in respelled.get(cd["name"], ()):
+                    continue
             f, adv, real, impl_ps = observe_method(cls, inst, mname)
             extra = [n for n in all_attr_names if n not in [p[0] for p in adv]][:4]
             if nested:
                 extra += [a[0] for a in nested[0] if not a[1]] + ([nested[1]] if nested[1] else [])
             calls = gen_calls(adv, extra, light=bool(desc and desc[0].get("light")))
             obs = run_calls(f, inst, adv, calls)
-            effects = effects_for(env, by_name, cd, cls, mname, pat, kind, adv)
-            effects += pair_effects(env, by_name, cd, cls, mname, pat, kind, adv)
-            effects += falsy_effects(env, by_name, cd, cls, mname, pat, kind, adv)
+            an_ = pat[1] if isinstance(pat, tuple) else (pat.split("_", 1)[1] if "_" in pat.strip("_") else None)
+            if an_ in abstract.get(cd["name"], ()):
+                # an attribute annotated with an ABSTRACT container type cannot be built by the library when it is unset
+                # (`MutableMapping()` raises TypeError -- not a matter of C17): signature and acceptance (spy) only
+                effects = []
+            else:
+                effects = effects_for(env, by_name, cd, cls, mname, pat, kind, adv)
+                effects += pair_effects(env, by_name, cd, cls, mname, pat, kind, adv)
+                effects += falsy_effects(env, by_name, cd, cls, mname, pat, kind, adv)
             out.append({"cls": cd["name"], "method": mname, "kind": kind, "nested": nested, "adv": adv,
                         "real": real, "impl": impl_ps, "obs": obs, "effects": effects})
     return out
@@ -1364,6 +1397,10 @@ def random_desc(rng, nclasses):
             elif ty in ("str", "dict", "set", "bool", "float", "opt"):
                 form = rng.choice(["none", "value", "value"])
             a = {"name": nm, "ty": ty, "form": form}
+            if ty.partition(":")[0] in SPELLABLE:
+                sp = rng.choice(["typing", "builtin", "builtin", "abc", "tabc"])
+                if sp != "typing":
+                    a["spell"] = sp
             if form in ("value", "noinit"):
                 dflt[0] += 1
                 n_ = dflt[0]
@@ -1435,9 +1472,29 @@ def random_desc(rng, nclasses):
     return desc
 
 
+def respell(desc, choose):
+    """copy of a description whose container attributes are spelled choose(attribute) (see SPELLINGS); marked "focus":
+    only the methods of the re-spelled attributes become cases"""
+    d = copy.deepcopy(desc)
+    for cd in d:
+        for a in cd["attrs"]:
+            if a["ty"].partition(":")[0] in SPELLABLE:
+                sp = choose(a)
+                if sp != "typing":
+                    a["spell"] = sp
+    d[0]["focus"] = True
+    return d
+
+
 def generate(rng, tier):
     quick = tier == "quick"
     descs = [copy.deepcopy(d) for d in FIXED]
+    # every container attribute of the fixed hierarchies once more in the PEP 585 spelling (list[X], dict[str, X],
+    # set[X]) and once in a spelling drawn per attribute (collections.abc / typing ABCs / built-in)
+    for d in FIXED:
+        descs.append(respell(d, lambda a: "builtin"))
+    for d in FIXED:
+        descs.append(respell(d, lambda a: rng.choice(["abc", "tabc", "abc", "builtin"])))
     for _ in range(3 if quick else 40):
         descs.append(random_desc(rng, rng.randint(2, 4)))
     return descs
